@@ -9,8 +9,17 @@ GEN = [0x3b6a57b2, 0x26508e6d, 0x1ea119fa, 0x3d4233dd, 0x2a1462b3]
 BECH32M = 0x2bc830a3
 
 
+POLYMOD = [None]        # set to an uninterpreted fold (symx.stubs.FoldStub) by harnesses that abstract the BCH code
+
+
 def polymod(values):
     """branch-free polymod on ints / SInt (30-bit state)"""
+    if POLYMOD[0] is not None and not all(isinstance(v, int) for v in values):
+        return POLYMOD[0](values)
+    return polymod_formula(values)
+
+
+def polymod_formula(values):
     if all(isinstance(v, int) for v in values):
         chk = 1
         for v in values:
